@@ -184,10 +184,12 @@ def verrClass : VErr → String × Option String
   | .curveMultiBackend id => ("curveMultiBackend", some id)
   | .curveNoBackend id => ("curveNoBackend", some id)
   | .curveBadFnType id => ("curveBadFnType", some id)
+  | .curveNoMembers id => ("curveNoMembers", some id)
   | .curveSelfRef id => ("curveSelfRef", some id)
   | .curveNoCurve id => ("curveNoCurve", some id)
   | .curveNoSensorId id => ("curveNoSensorId", some id)
   | .curveNoSensor id => ("curveNoSensor", some id)
+  | .curveEmptySteps id => ("curveEmptySteps", some id)
   | .curvePidZero id => ("curvePidZero", some id)
   | .curveCycle => ("curveCycle", none)
   | .dupFan id => ("dupFan", some id)
@@ -195,6 +197,7 @@ def verrClass : VErr → String × Option String
   | .fanNoBackend id => ("fanNoBackend", some id)
   | .fanNoCurveId id => ("fanNoCurveId", some id)
   | .fanNoCurve id => ("fanNoCurve", some id)
+  | .fanEmptyAlgo id => ("fanEmptyAlgo", some id)
   | .fanBadMaxPwmChange id => ("fanBadMaxPwmChange", some id)
   | .fanPidZero id => ("fanPidZero", some id)
   | .fanIndexXorRpm id => ("fanIndexXorRpm", some id)
